@@ -220,6 +220,7 @@ def run(chk, ctx):
     round3.json_write_through(chk, ctx)    # definitions accepted before the crash are on disk
     from . import round5
     round5.store_absence_by_truthiness(chk, ctx, "C04.R8")   # the record of an execution lost with the engine is re-created
+    round5.retry_arm_publishes_before_teardown(chk, ctx)
     from . import round4
     round4.clock_domains(chk, ctx)
     round4.teardown_after_terminal_notification(chk, ctx)   # a crash between the release of the held events and the notification loses the end
